@@ -139,7 +139,12 @@ func seqScenario(rng *RNG, model string) string {
 				}
 				return up[rng.Intn(len(up))]
 			}
-			switch rng.Intn(9) {
+			doScan := ""
+			switch rng.Intn(11) {
+			case 9:
+				doScan = "revscan"
+			case 10:
+				doScan = "fwdscan"
 			case 0:
 				r := c.regions[rng.Intn(len(c.regions))]
 				old := r.addr
@@ -226,7 +231,30 @@ func seqScenario(rng *RNG, model string) string {
 					}
 				}
 			}
+			c.scanWalk = true
 			c.mu.Unlock()
+			if doScan != "" {
+				// the application walks table t with a scanner, region by region (what it gets is not
+				// judged here; what the scan leaves behind in the client is: the requests that follow)
+				ctx, cancel := context.WithTimeout(context.Background(), 4*time.Second)
+				var scn hrpc.Scanner
+				if doScan == "revscan" {
+					s, _ := hrpc.NewScanRange(ctx, []byte("t"), []byte{0xff, 0xff, 0xff}, nil, hrpc.Reversed())
+					scn = sc.cl.Scan(s)
+				} else {
+					s, _ := hrpc.NewScan(ctx, []byte("t"))
+					scn = sc.cl.Scan(s)
+				}
+				for n := 0; n < 40; n++ {
+					if _, err := scn.Next(); err != nil {
+						break
+					}
+				}
+				scn.Close()
+				cancel()
+				settle()
+				ev = doScan
+			}
 			if ev != "" {
 				steps = append(steps, "E:"+ev)
 			}
@@ -1621,6 +1649,207 @@ func probeRefusedThenMoved() string {
 	return fmt.Sprintf("c04 script probe-refused-then-moved %s,%s unavailable=%d", res, res2, unavailable)
 }
 
+// sameRegionFirstUse (C04): two requests for keys of one region that is not cached yet; both miss
+// the cache, both look the region up in hbase:meta (the answers are held until both lookups are
+// there), one of them puts it into the cache, the other finds it there. Both succeed.
+func sameRegionFirstUse() string {
+	setSleepOverride(fastBackoff)
+	c := newSimCluster()
+	c.addRegion(nil, []byte("t"), nil, nil, "rs1:1")
+	sc := newSimClient(c)
+	defer sc.cl.Close()
+	get := func(t, k string) string {
+		ctx, cancel := context.WithTimeout(context.Background(), 4*time.Second)
+		defer cancel()
+		g, _ := hrpc.NewGet(ctx, []byte(t), []byte(k))
+		_, err := sc.cl.Get(g)
+		return classOf(err)
+	}
+	get("nope", "x") // hbase:meta is known now
+	c.mu.Lock()
+	c.metaHold = make(chan struct{})
+	hold := c.metaHold
+	c.metaParked = 0
+	c.mu.Unlock()
+	res := make(chan string, 2)
+	go func() { res <- get("t", "a") }()
+	go func() { res <- get("t", "b") }()
+	for i := 0; i < 400; i++ {
+		c.mu.Lock()
+		n := c.metaParked
+		c.mu.Unlock()
+		if n >= 2 {
+			break
+		}
+		time.Sleep(2 * time.Millisecond)
+	}
+	c.mu.Lock()
+	c.metaHold = nil
+	c.mu.Unlock()
+	close(hold)
+	r1, r2 := "blocked", "blocked"
+	select {
+	case r1 = <-res:
+	case <-time.After(5 * time.Second):
+	}
+	select {
+	case r2 = <-res:
+	case <-time.After(5 * time.Second):
+	}
+	settle()
+	unavailable := 0
+	for _, ok := range sc.v.VerifAvailability() {
+		if !ok {
+			unavailable++
+		}
+	}
+	return fmt.Sprintf("c04 script same-region-first-use %s,%s unavailable=%d", r1, r2, unavailable)
+}
+
+// batchMixedContexts (C07 / C13 on the simulated cluster): a batch of a call with a context of its
+// own (alive throughout) followed by a call without one, whose region is being re-established and
+// comes back after a moment. Nothing is cancelled: both calls succeed.
+func batchMixedContexts() string {
+	setSleepOverride(fastBackoff)
+	c := newSimCluster()
+	c.addRegion(nil, []byte("t"), nil, []byte("m"), "rs1:1")
+	b := c.addRegion(nil, []byte("t"), []byte("m"), nil, "rs2:1")
+	sc := newSimClient(c)
+	defer sc.cl.Close()
+	get := func(k string) string {
+		ctx, cancel := context.WithTimeout(context.Background(), 6*time.Second)
+		defer cancel()
+		g, _ := hrpc.NewGet(ctx, []byte("t"), []byte(k))
+		_, err := sc.cl.Get(g)
+		return classOf(err)
+	}
+	w1, w2 := get("a"), get("x")
+	hold := make(chan struct{})
+	c.mu.Lock()
+	c.probeHold = map[string]chan struct{}{"rs2:1": hold}
+	b.faults = append(b.faults, "REQ:nsre")
+	m0 := len(c.serves)
+	c.mu.Unlock()
+	first := make(chan string, 1)
+	go func() { first <- get("x2") }() // told NotServingRegion: region B is being re-established
+	for i := 0; i < 500; i++ {
+		c.mu.Lock()
+		parked := false
+		for _, s := range c.serves[m0:] {
+			if s.kind == "probe" {
+				parked = true
+			}
+		}
+		c.mu.Unlock()
+		if parked {
+			break
+		}
+		time.Sleep(time.Millisecond)
+	}
+	bctx, bcancel := context.WithTimeout(context.Background(), 6*time.Second)
+	defer bcancel()
+	own, ownCancel := context.WithCancel(context.Background())
+	defer ownCancel()
+	g1, _ := hrpc.NewGet(own, []byte("t"), []byte("a2"))
+	g2, _ := hrpc.NewGet(context.Background(), []byte("t"), []byte("x3"))
+	type bres struct{ r1, r2 string }
+	done := make(chan bres, 1)
+	go func() {
+		res, _ := sc.cl.SendBatch(bctx, []hrpc.Call{g1, g2})
+		done <- bres{classOf(res[0].Error), classOf(res[1].Error)}
+	}()
+	time.Sleep(80 * time.Millisecond)
+	c.mu.Lock()
+	delete(c.probeHold, "rs2:1")
+	c.mu.Unlock()
+	close(hold)
+	r := bres{"blocked", "blocked"}
+	select {
+	case r = <-done:
+	case <-time.After(7 * time.Second):
+	}
+	select {
+	case <-first:
+	case <-time.After(7 * time.Second):
+	}
+	settle()
+	unavailable := 0
+	for _, ok := range sc.v.VerifAvailability() {
+		if !ok {
+			unavailable++
+		}
+	}
+	if w1 != "ok" || w2 != "ok" {
+		r.r1 = "setup-" + w1 + w2
+	}
+	return fmt.Sprintf("c04 script batch-mixed-contexts %s,%s unavailable=%d", r.r1, r.r2, unavailable)
+}
+
+// overlappingCloses (C19): Close is called while another Close is still tearing the connections
+// down (one of them takes its time). "After Close returns … every regionserver connection the
+// client holds is closed" holds for the second caller as well: it returns only once that is so.
+func overlappingCloses() string {
+	setSleepOverride(fastBackoff)
+	c := newSimCluster()
+	c.addRegion(nil, []byte("t"), nil, nil, "rs1:1")
+	sc := newSimClient(c)
+	ctx, cancel := context.WithTimeout(context.Background(), 4*time.Second)
+	g, _ := hrpc.NewGet(ctx, []byte("t"), []byte("k"))
+	_, werr := sc.cl.Get(g)
+	cancel()
+	hold := make(chan struct{})
+	c.mu.Lock()
+	c.closeHold = hold
+	c.mu.Unlock()
+	firstDone := make(chan struct{})
+	go func() { sc.cl.Close(); close(firstDone) }()
+	for i := 0; i < 1000; i++ { // until the first Close stands inside a connection's Close
+		c.mu.Lock()
+		n := c.closeParked
+		c.mu.Unlock()
+		if n > 0 {
+			break
+		}
+		time.Sleep(time.Millisecond)
+	}
+	secondDone := make(chan struct{})
+	go func() { sc.cl.Close(); close(secondDone) }()
+	verdict := "ok"
+	select {
+	case <-secondDone:
+		c.mu.Lock()
+		open := 0
+		for _, s := range c.conns {
+			if atomic.LoadInt32(&s.closed) == 0 {
+				open++
+			}
+		}
+		c.mu.Unlock()
+		if open > 0 {
+			verdict = fmt.Sprintf("second-close-returned-with-%d-connections-open", open)
+		}
+	case <-time.After(300 * time.Millisecond):
+		// still waiting for the first one: as it should
+	}
+	c.mu.Lock()
+	c.closeHold = nil
+	c.mu.Unlock()
+	close(hold)
+	for _, ch := range []chan struct{}{firstDone, secondDone} {
+		select {
+		case <-ch:
+		case <-time.After(3 * time.Second):
+			if verdict == "ok" {
+				verdict = "close-blocked"
+			}
+		}
+	}
+	if werr != nil {
+		verdict = "setup-failed"
+	}
+	return "c19 check close-returned-before-the-connections-were-closed " + verdict
+}
+
 type zkFixed string
 
 func (z zkFixed) LocateResource(zk.ResourceName) (string, error) { return string(z), nil }
@@ -1715,6 +1944,14 @@ func init() {
 			if shard == 4%nsh {
 				emit(probeRefusedThenMoved())
 			}
+			if shard == 5%nsh {
+				// a connection dying while a request is being written on it: the request ends (C03's
+				// gated scripts) — otherwise the caller, or the region whose probe it was, waits for ever
+				emit(strings.Replace(slowCloseScenario(), "c03 script", "c09c script", 1))
+			}
+			if shard == 6%nsh {
+				emit(sameRegionFirstUse())
+			}
 			for i := shard; i < 24; i += nsh {
 				emit(mergeRaceScenario())
 			}
@@ -1748,6 +1985,7 @@ func init() {
 		})
 	}
 	props["C20"] = func(tier string, seed uint64, out *Out) {
+		c20ConnLines(out)
 		n := 300
 		if tier != "quick" {
 			n = 5000
@@ -1801,6 +2039,13 @@ func init() {
 				emit(strings.Replace(probeFatalScenario(), "c04 script", "c09 script", 1))
 				emit(strings.Replace(metaSlowScenario(true), "c04 script", "c09 script", 1))
 			}
+			if shard == 3%nsh && !raceChild {
+				// a connection dies while a request is being written on it (gated connection, C03's
+				// scripts): the request — an establisher's probe as much as a user's call — must end,
+				// or the region it serves stays unavailable for ever
+				emit(strings.Replace(slowCloseScenario(), "c03 script", "c09c script", 1))
+				emit(strings.Replace(blockedWriteCloseScenario(), "c03 script", "c09c script", 1))
+			}
 			if !raceChild {
 				for i := shard; i < 24; i += nsh {
 					emit(strings.Replace(mergeRaceScenario(), "c04 script", "c09 script", 1))
@@ -1831,6 +2076,9 @@ func init() {
 		}
 	}
 	props["C13"] = func(tier string, seed uint64, out *Out) {
+		if os.Getenv("VERIF_SHARD") == "" {
+			runBatchProp("C13", tier, seed, out)
+		}
 		var jobs []func() string
 		for _, st := range waitStates {
 			for _, api := range []string{"get", "batch", "scan", "batchbg", "batchown1"} {
@@ -1899,6 +2147,7 @@ func init() {
 				return s.line("c19c")
 			})
 		}
+		jobs = append(jobs, overlappingCloses)
 		jobs = append(jobs,
 			func() string { return strings.Replace(slowCloseScenario(), "c03 script", "c19c script", 1) },
 			func() string { return strings.Replace(blockedWriteCloseScenario(), "c03 script", "c19c script", 1) })
